@@ -276,7 +276,9 @@ func c05Linearizable(s Spec, calls []rlCall) string {
 			cp := *m
 			wait, commit := cp.request(c.at, kk)
 			refused := w != -1 && wait > w
-			if refused != (c.wait == -1) || (!refused && wait != c.wait) {
+			if c.wait == -3 {
+				// a blocking acquire that was cancelled: it reserved, how long it was told to wait is not observable
+			} else if refused != (c.wait == -1) || (!refused && wait != c.wait) {
 				continue
 			}
 			if !refused {
@@ -301,6 +303,10 @@ func c05Linearizable(s Spec, calls []rlCall) string {
 	if !try(0, m) {
 		var ss []string
 		for _, c := range calls {
+			if c.wait == -3 {
+				ss = append(ss, fmt.Sprintf("%s@%d->cancelled while waiting", c.op, c.at))
+				continue
+			}
 			ss = append(ss, fmt.Sprintf("%s@%d->%d", c.op, c.at, c.wait))
 		}
 		sort.Strings(ss)
@@ -388,17 +394,15 @@ func c05Scenarios(tier string) []*Scenario {
 								vrt.Fail(fmt.Sprintf("cancelled acquire returned %v", c.err))
 								return
 							}
-							continue
+							c.wait = -3
+							c.op = fmt.Sprintf("reserve:%s", strings.Split(c.op, ":")[1])
 						}
 					}
 					lin = append(lin, c)
 				}
-				skipLin := len(lin) != len(calls)
-				if !skipLin {
-					if msg := c05Linearizable(s, lin); msg != "" {
-						vrt.Fail(msg)
-						return
-					}
+				if msg := c05Linearizable(s, lin); msg != "" {
+					vrt.Fail(msg)
+					return
 				}
 				// rate invariant (model-free): the last permit of every grant becomes usable at at+wait; the
 				// earlier permits of a multi-permit grant are not located without a model, so they are not counted
@@ -428,6 +432,9 @@ func c05Scenarios(tier string) []*Scenario {
 	add("smooth-acquire", sm, [][]string{{"acquire:1:300"}, {"acquire:1:300"}, {"sleep:100", "try:1"}})
 	add("smooth-boundary", sm, [][]string{{"reserve:1", "sleep:100", "try:1"}, {"sleep:100", "try:1"}})
 	add("smooth-cancelled", sm, [][]string{{"reserve:1", "acquirectx:1:50"}, {"sleep:60", "reserve:1"}})
+	// cancellation landing on the very instant the wait ends, followed by another blocking acquisition
+	add("smooth-cancel-at-expiry", sm, [][]string{{"reserve:1", "acquirectx:1:100", "acquire:1:300"}})
+	add("smooth-cancel-at-expiry2", sm, [][]string{{"reserve:1", "acquirectx:1:100"}, {"sleep:100", "acquire:1:300"}})
 	bu := Spec{Kind: KLimiter, Permits: 2, Period: 100}
 	add("bursty-try", bu, [][]string{{"try:1"}, {"try:1"}, {"try:1"}})
 	add("bursty-try2", bu, [][]string{{"try:2"}, {"try:1"}})
